@@ -6,11 +6,11 @@ from pathlib import Path
 HERE = Path(__file__).resolve().parent
 PY = "/venv/bin/python /verif/check.py"
 
-HYGIENE = (" On every function these rules pass through (and its callees) nine exact Python-semantics lints run as rule H"
+HYGIENE = (" On every function these rules pass through (and its callees) ten exact Python-semantics lints run as rule H"
            " (sa/hygiene.py, DESIGN §8.2c): no state kept in a mutable default argument, no single-pass iterator consumed twice or inside"
            " a loop (also across a call), no stored closure over a loop variable, no regex flag in a count/maxsplit position, no"
            " comprehension clause reading a name bound by a later clause, no table entries glued by a missing comma, no enum alias, no"
-           " click option whose kind disagrees with the annotated parameter it fills, no text-mode file I/O without an explicit encoding.")
+           " click option whose kind disagrees with the annotated parameter it fills, no text-mode file I/O without an explicit encoding, no class table attribute that is a string where its siblings have a sequence. The inventory of indirection on the same scope (decorators, special methods, overrides, class / field options, bases, library callbacks, import-time statements; sa/inventory.py, DESIGN §8.2d) must equal the confirmed one - a deviation is reported as not decided (exit 2), never as a violation.")
 
 # property -> (technique, level text, level note, design ref)
 CHECKS: dict[str, tuple[str, str, str, str]] = {
@@ -33,7 +33,7 @@ CHECKS: dict[str, tuple[str, str, str, str]] = {
         " prunes/yields accordingly, that every call chain enumerating files forwards the include flags, the"
         " VCS strategy and the subset unchanged, and that VCS readers' flags and separators agree. Necessary"
         " structural conditions decided for all paths/names; Git's own ignore answer is an external run-time"
-        " oracle and is not decided. VCS membership tests (is_ignored / is_submodule of every strategy) compare paths of the same base (units-of-measure check: query made root-relative, collected sets root-relative); the report's file list is subset_files(F) whenever F was given, even empty. Paths printed by VCS commands keep their exact spelling (no whitespace strip, no lossy decode). FileReport equality, if defined, includes the file's full path (reports are collected in a set). The argv of git's ignored-files query equals the confirmed flag set, and VCS commands inherit the caller's environment (env= must extend os.environ). is_submodule answers from the VCS's own list only (no probe of the tree).",
+        " oracle and is not decided. VCS membership tests (is_ignored / is_submodule of every strategy) compare paths of the same base (units-of-measure check: query made root-relative, collected sets root-relative); the report's file list is subset_files(F) whenever F was given, even empty. Paths printed by VCS commands keep their exact spelling (no whitespace strip, no lossy decode). FileReport equality, if defined, includes the file's full path (reports are collected in a set). The argv of git's ignored-files query equals the confirmed flag set, and VCS commands inherit the caller's environment (env= must extend os.environ). is_submodule answers from the VCS's own list only (no probe of the tree). A VCS strategy keeps the project root spelled as given (not resolved, not made absolute), so that relative queries and collected sets share one base.",
         "Trusted: CPython ast, re._parser, sa/relang.py, sa/tab.py, sa/fold.py. Names exclude '/', NUL, CR, LF.",
         "DESIGN.md §3 C03",
     ),
@@ -43,7 +43,7 @@ CHECKS: dict[str, tuple[str, str, str, str]] = {
         " {a . / * \\} up to length 5 (quick) / 8 plus 60k seeded random globs to length 16 (thorough) the produced"
         " regular expression is compared, for paths of any length, with the narrowest and widest reading of the"
         " specification by language inclusion. Bounded in the glob length only; the path quantifier is unbounded."
-        " Decides the translation and the matcher wiring, not tomlkit or pathlib behaviour. The selection of the annotation table is a decision table whose outcome depends only on whether some table matches the POSIX path.",
+        " Decides the translation and the matcher wiring, not tomlkit or pathlib behaviour. The selection of the annotation table is a decision table whose outcome depends only on whether some table matches the POSIX path. The attrs converter of AnnotationsItem.paths hands every glob on verbatim (no strip, no case change, no path normalisation).",
         "Trusted: CPython ast, re._parser (assumed to describe what re compiles), sa/transducer.py, sa/relang.py."
         " Known finding (class B) is recognised by language equality with a frozen defect model, so any other"
         " deviation is still a violation.",
@@ -70,7 +70,7 @@ CHECKS: dict[str, tuple[str, str, str, str]] = {
         " line prefix (automata intersection, witness reported); the yielded value passes only through strip() and the"
         " guarded frame slice; the 4 KiB / snippet / seek(0) table, parse-error => empty info, replace-decoding."
         " A terminator followed by trailing blanks is still stripped; the reader is given text only (not the comment syntax),"
-        " so a free-text value ending in any terminator loses it (R9, recorded finding). Regex backtracking details are not decided.",
+        " so a free-text value ending in any terminator loses it (R9, recorded finding). Regex backtracking details are not decided. The expression parser is built without a symbol table, so identifiers are kept exactly as written (no case folding, no canonical respelling; shared with C06-R5).",
         "Trusted: ast, re._parser, sa/fold.py, sa/relang.py, sa/tab.py. The order hazard in _END_PATTERN is decided under C14.",
         "DESIGN.md §3 C02",
     ),
